@@ -330,8 +330,23 @@ def gen_geocoder(rng, n, tier="quick"):
                 yield Case("all_locations", "db_all %s" % I(h),
                            norm("%s %s" % (I(len(allr)), " ".join(rec_tok(r) for r in allr))),
                            {"handle": h})
+        # records handed out by a database that is about to be discarded are edited in place:
+        # the next database() must not see those edits (no shared record objects)
+        edited = False
+        for h in episode:
+            if rng.random() < 0.5:
+                for rec in list(geo.all_locations(handles[h]))[: rng.randint(1, 400)]:
+                    try:
+                        rec.timezone = "UTC"
+                        rec.longitude = 77.05
+                        rec.latitude = -1.5
+                        rec.region = rec.region + " (edited)"
+                        edited = True
+                    except Exception:  # noqa: BLE001
+                        pass
+                handles[h] = None
         # independence probe: a brand-new database() must equal the pristine built-in
-        if rng.random() < 0.5:
+        if edited or rng.random() < 0.5:
             h, cs = new_db(True)
             for c in cs:
                 yield c
